@@ -661,6 +661,18 @@ def load_cases(chk, thorough, sd):
             d["static"] = True
             cases.append(d)
     cases += fams["calls"] + fams["lookup"]
+    # ids follow the order in which the generated program executes the cases (a restart after a crash skips "all ids <= n")
+    def exec_key(ic):
+        i, c = ic
+        if c["fam"] == "leaf":
+            if c["route"] == "strlit":
+                return (1, (), i)
+            g = c["go"]
+            return (0, (c["route"], g["k"], len(g["b"]) if g["k"] == "array" else -1), i)
+        if c["fam"] == "nested":
+            return (2 if c.get("static") else 3, (), i)
+        return (4 if c["fam"] == "calls" else 5, (), i)
+    cases = [c for _, c in sorted(enumerate(cases), key=exec_key)]
     for c in cases:
         c["_exp"] = expectation(c)
     return cases, {k: len(v) for k, v in fams.items()}
@@ -703,6 +715,8 @@ def part_values(chk, thorough, sd, cases, counts):
     env = py_env({"VERIF_C19_HOOK": "0"})
     robs, rcr, rtr = run_protocol([sys.executable, twin], env, len(cases), 600)
     rbad = judge(cases, robs)
+    if list(robs) != list(range(len(cases))):
+        raise C.Undecided("harness defect: the generated program does not execute the cases in id order")
     if rcr or rbad or "N count i1" not in rtr:
         raise C.Undecided("self-validation failed: python3 itself disagrees with the spec on %d cases, e.g. %s" % (
             len(rbad), [(case_key(cases[b[0]]), b[1], b[2]) for b in rbad[:3]]))
@@ -767,7 +781,7 @@ def part_values(chk, thorough, sd, cases, counts):
     if sorted(imports) != ["I vmod", "I vpk.sub"]:
         chk.reject("values:imports", "import requests seen by the interpreter: %r, expected one for vmod and one for vpk.sub" % imports,
                    {"imports": imports})
-    n = len(cases)
+    n = len(obs)
     bump(chk, "evaluations", n)
     bump(chk, "traces_validated_against_impl", n)
     bump(chk, "distinct_nontrivial", len({c["_exp"]["C"] + "|" + "|".join(c["_exp"]["py"]) for c in cases}))
